@@ -190,6 +190,14 @@ def opsXml (op : String) (args : List SExp) : Option String :=
   | "load", [pfx, nsmap, root, tree] => do
       let ctx ← parseNsCtx pfx nsmap; let root ← root.str?; let tree ← parseXml tree
       pure (showLoad (loadXtce ctx root tree))
+  | "loadseq", [root, .list loads] => do
+      let root ← root.str?
+      let rs ← loads.mapM (fun l => match l with
+        | SExp.list [pfx, nsmap, tree] => do
+          let ctx ← parseNsCtx pfx nsmap; let tree ← parseXml tree
+          pure (showLoad (loadXtce ctx root tree))
+        | _ => none)
+      pure (if rs.contains "unsupported" then "unsupported" else "seq " ++ " | ".intercalate rs)
   | "cyclexml", [pfx, nsmap, root, tree] => do
       let ctx ← parseNsCtx pfx nsmap; let root ← root.str?; let tree ← parseXml tree
       pure (match loadXtce ctx root tree with
